@@ -137,6 +137,20 @@ Theorem C10_regular_cert_scaled_sound :
 Proof. exact regular_cert_scaled_sound_lemma. Qed.
 Print Assumptions C10_regular_cert_scaled_sound.
 
+(* Homogeneity: the check clears denominators by scaling the matrix by s > 0 and the solution by t > 0 (and the
+   right-hand side by s t); the verdicts of the checkers do not change. *)
+Theorem C10_residual_check_scale_invariant :
+  forall n B x b eps s t, 0 < s -> 0 < t ->
+  check_residual_right n (mscale s B) (vscale t x) (vscale (s * t) b) eps = check_residual_right n B x b eps /\
+  check_residual_left n (mscale s B) (vscale t x) (vscale (s * t) b) eps = check_residual_left n B x b eps.
+Proof. exact residual_check_scale_invariant_lemma. Qed.
+Print Assumptions C10_residual_check_scale_invariant.
+
+Theorem C10_close_check_scale_invariant :
+  forall x y eps t, 0 < t -> check_close (vscale t x) (vscale t y) eps = check_close x y eps.
+Proof. exact check_close_scale_lemma. Qed.
+Print Assumptions C10_close_check_scale_invariant.
+
 (* ---- the hypotheses are satisfiable by non-trivial instances ---- *)
 Definition exB : mat := [[2; 1; 0]; [1; 1; 0]; [0; 3; 1#2]].              (* columns *)
 Definition exBinv : mat := [[1; -1; 0]; [-1; 2; 0]; [6; -12; 2]].
@@ -159,3 +173,6 @@ Example ex_residual : check_residual_right 3 exB [1; 2; 4000001#1000000] [4; 15;
 Proof. vm_compute. split; reflexivity. Qed.
 Example ex_history : lu_run exB [OpChange 0 [1; 0; 0]; OpLoad exBinv; OpChange 2 [0; 0; 1]] = [[1; -1; 0]; [-1; 2; 0]; [0; 0; 1]].
 Proof. reflexivity. Qed.
+Example ex_scale : check_residual_right 3 (mscale 8 exB) (vscale 4 [1; 2; 4000001#1000000]) (vscale 32 [4; 15; 2]) (1#100000) = true /\
+                   check_residual_right 3 (mscale 8 exB) (vscale 4 [1; 2; 5]) (vscale 32 [4; 15; 2]) (1#100000) = false.
+Proof. vm_compute. split; reflexivity. Qed.
